@@ -604,6 +604,71 @@ class Lane:
             self.c["E_workloads"] = self.c.get("E_workloads", 0) + 1
             self.c["E_id_requests_observed"] = self.c.get("E_id_requests_observed", 0) + idhook.STATE["evaluations"] - before
 
+    # ---------------- lane G: two threads inside the codec
+    def lane_g_two_threads(self, n):
+        """the networking thread decodes and re-encodes what peers send while the miner / wallet thread encodes what it builds:
+        thread A decodes a value, encodes it again and takes its id; at one statement boundary / function entry inside the
+        codec modules -- a sample of all of them -- it is held while thread B does the same with ANOTHER value.  Both must get
+        what they get alone"""
+        import skepticoin.datatypes as dt
+        import skepticoin.serialization as ser
+        import skepticoin.signing as sg
+        import skepticoin.hash as hm
+        import skepticoin.networking.messages as ms
+        from skv import preempt
+        g, rng = self.g, self.rng
+        pre = preempt.Preempter([dt, ser, sg, hm, ms])
+        if not pre.ok:
+            self.c["G_tool_slot_taken"] = 1
+            return
+
+        def pick():
+            r = rng.random()
+            if r < 0.4:
+                return g.transaction(rng), dt.Transaction, "Transaction"
+            if r < 0.7:
+                return g.block(rng), dt.Block, "Block"
+            kind = rng.choice(g.MESSAGES)
+            return g.message(rng, kind), ms.Message, "Message/" + kind
+
+        def job(b, decoder):
+            def work():
+                v = decoder.stream_deserialize(io.BytesIO(b))
+                return (objgen.deep(v), v.serialize(), v.hash() if hasattr(v, "hash") and not isinstance(v, ms.Message) else None)
+            return work
+        try:
+            for _ in range(n):
+                try:
+                    (x, dx, cx), (y, dy, cy) = pick(), pick()
+                    bx, by = x.serialize(), y.serialize()
+                    alone_a, alone_b = job(bx, dx)(), job(by, dy)()
+                except Exception:
+                    self.c["G_cases_skipped"] = self.c.get("G_cases_skipped", 0) + 1
+                    continue
+                total = pre.count(job(bx, dx))
+                self.c["G_cases"] = self.c.get("G_cases", 0) + 1
+                points = list(range(1, total + 1))
+                if len(points) > 40:
+                    points = sorted(rng.sample(points, 40))
+                for k in points:
+                    a, b, ran = pre.run(job(bx, dx), job(by, dy), k)
+                    if not ran:
+                        continue
+                    self.c["G_switch_points"] = self.c.get("G_switch_points", 0) + 1
+                    w = {"lane": "G-two-threads", "class": cx, "bytes": bx.hex(), "other_class": cy, "other_bytes": by.hex(),
+                         "switch_at_event": k, "of_events": total}
+                    for who, got, want, cn in (("A", a, alone_a, cx), ("B", b, alone_b, cy)):
+                        if isinstance(got, preempt.Raised):
+                            self.v("codec-raises-when-two-threads-use-it:" + cn.split("/")[0], "thread %s (%s) raised %r while another "
+                                   "thread was inside the codec (switch at event %d of %d)" % (who, cn, got.e, k, total), w)
+                        elif got != want:
+                            part = ["decoded value", "encoding", "id"][[i for i in range(3) if got[i] != want[i]][0]]
+                            self.v("codec-result-depends-on-another-threads-work:" + cn.split("/")[0], "thread %s (%s): the %s differs "
+                                   "from what the same call gives alone (switch at event %d of %d, the other thread worked on a %s)" % (
+                                       who, cn, part, k, total, cy if who == "A" else cx), w)
+        finally:
+            pre.close()
+
     def result(self):
         from skv import idhook
         idhook.report(self.v, self.c)
@@ -650,6 +715,8 @@ def run_shard(spec):
             utxo = {dt.OutputReference(bytes.fromhex(h), i): dt.Output(v, sg.SECP256k1PublicKey(bytes.fromhex(pk)))
                     for h, i, v, pk in w["utxo"]}
             lane.derived_case(wallet, utxo, _rebuild_unsigned(bytes.fromhex(w["unsigned"])))
+        elif w.get("lane") == "G-two-threads":
+            lane.lane_g_two_threads(30)
         elif w.get("lane") == "id-hook":
             import skepticoin.datatypes as dt
             t = dt.Transaction.deserialize(b)
@@ -667,6 +734,7 @@ def run_shard(spec):
     lane.lane_d_derived(25 if quick else 400)
     lane.lane_f_after_failed_encoding(60 if quick else 1200)
     lane.lane_e_workload(2 if quick else 40)
+    lane.lane_g_two_threads(10 if quick else 200)
     return lane.result()
 
 
@@ -684,6 +752,7 @@ def finalize(m, tier):
                    ("vlq textbook-minimal alternatives offered", c.get("B_by_mutation", {}).get("vlq-minimal", 0), 300),
                    ("textbook-minimal list prefixes offered", c.get("B_minimal_list_prefix", 0), 40),
                    ("ids checked", c.get("C_ids_checked", 0), 5000),
+                   ("two-thread switch points in the codec", c.get("G_switch_points", 0), 2000),
                    ("ids from store", c.get("C_ids_from_store", 0), 100), ("failed flushes", c.get("C_failed_flushes", 0), 40),
                    ("ids after a failed flush", c.get("C_ids_after_failed_flush", 0), 200), ("ids of derived objects", c.get("D_ids_checked", 0), 1000),
                    ("encodings right after a failed encoding", c.get("F_failed_encodings", 0), 500),
